@@ -261,7 +261,11 @@ func runBuf(work, prop string) {
 				// the caller keeps its buffer (reply and canary) and the reply it was handed: later calls
 				// without a context buffer must leave both alone
 				ret.keep("context-buffer", full)
-				ret.keep("reply", res)
+				if used {
+					ret.keep("reply", res)
+				} else {
+					ret.keep("reply-beside-context-buffer", res)
+				}
 				e.count("ctx-buffer", fmt.Sprintf("ctx-%d-%d", n, d))
 			}
 		}
@@ -282,6 +286,9 @@ func runBuf(work, prop string) {
 			if sha256.Sum256(it.b) != it.sum {
 				stable[it.kind] = false
 				e.fail("C11-"+it.kind+"-mutated", fmt.Sprintf("%s bytes (%d) retained by user code changed after further traffic", it.kind, len(it.b)), desc)
+				if it.kind == "reply-beside-context-buffer" {
+					e.fail("C19-reply-beside-context-buffer-mutated", fmt.Sprintf("a reply (%d bytes) that did not fit the caller's context buffer, and was therefore handed over in memory of the library's choosing, changed after further traffic", len(it.b)), desc)
+				}
 				if it.kind == "context-buffer" {
 					e.fail("C19-context-buffer-written-by-later-call", fmt.Sprintf("a caller-supplied context buffer (%d bytes, reply and canary) changed after the call it was given to had returned", len(it.b)), desc)
 				}
